@@ -447,6 +447,20 @@ def extra_obligations(repo, D, pid):
     extra = sorted(callers - {'Controller.evaluate_objective', 'solve_main', 'objfun<-eval_least_squares_with_regularisation'})
     out.append(Ob('package/frame[objfun is called only through the evaluation choke point]', 'frame', 'package', ['C02', 'C08'], [], z3.BoolVal(not extra), 0,
                   'unsat', {'syntactic': True, 'why': ', '.join(extra)}))
+    # C02 (log): every "Function eval %i at point %i ..." record is formatted with (eval_num, pt_num, ...) in that order - the evaluation numbers and point numbers a user reads
+    # in the log are the ledger's
+    fi = repo.func('eval_least_squares_with_regularisation')
+    k = 0
+    if fi is not None:
+        for n in ast.walk(fi.node):
+            if isinstance(n, ast.BinOp) and isinstance(n.op, ast.Mod) and isinstance(n.left, ast.Constant) and isinstance(n.left.value, str) and 'Function eval' in n.left.value:
+                k += 1
+                args = [ast.unparse(a) for a in (n.right.elts if isinstance(n.right, ast.Tuple) else [n.right])]
+                ok = n.left.value.startswith('Function eval %i at point %i') and args[:2] == ['eval_num', 'pt_num']
+                out.append(Ob('eval_least_squares_with_regularisation/frame[log record #%d prints the evaluation number, then the point number]' % k, 'frame',
+                              'eval_least_squares_with_regularisation', ['C02'], [], z3.BoolVal(ok), n.lineno, 'unsat', {'syntactic': True, 'why': '%r %% %s' % (n.left.value[:40], args[:3])}))
+    out.append(Ob('eval_least_squares_with_regularisation/frame[both log records (short and long x) are present]', 'frame', 'eval_least_squares_with_regularisation', ['C02'], [],
+                  z3.BoolVal(k == 2), 0, 'unsat', {'syntactic': True, 'why': '%d records found' % k}))
     # C02: calls that share a point number receive the identical x: inside the two sampling loops neither the point nor the scaling is re-bound
     for qual, names in (('Controller.evaluate_objective', {'x'}), ('solve_main', {'x0', 'scaling_changes'})):
         fi = repo.func(qual)
